@@ -24,10 +24,10 @@ from .spec import V
 
 INT = "pygradflow.integration."
 FUNCS = [INT + "flow.Flow.rhs", INT + "flow.Flow.aug_lag_deriv_x", INT + "flow.Flow.aug_lag_deriv_y", INT + "flow.Flow.neg_aug_lag_deriv_x", INT + "flow.Flow.split_states",
-         INT + "restricted_flow.RestrictedFlow.rhs", INT + "restricted_flow.RestrictedFlow.residuum"]
+         INT + "restricted_flow.RestrictedFlow.rhs", INT + "restricted_flow.RestrictedFlow.residuum", INT + "restricted_flow.RestrictedFlow.rhs_jac", INT + "flow.Flow.neg_aug_lag_deriv_xx"]
 
 
-@unit("C11.Flow.frame", ["C11"], FUNCS, config={"max_paths": 100})
+@unit("C11.Flow.frame", ["C11"], FUNCS, config={"max_paths": 400})
 def flow_frame(u):
     params = mk_params(u)
     problem = mk_problem(u)
@@ -44,10 +44,15 @@ def flow_frame(u):
     # one caller-owned object per kind, handed out again on every call (a caching callback)
     g = _fresh_vec(u.it, "g_user", n, region="USER")
     c = _fresh_vec(u.it, "c_user", m, region="USER")
-    J = Mat(m, n, None, name="J_user", region="USER")
+    fmt = ["coo", "csr", "csc"][u.path.choose_n(3, "sparse format of the callbacks' matrices")]
+    J = matmodel.user_matrix(u.it, m, n, "J_user", fmt=fmt)
     A[EV + "obj_grad"] = lambda it, s, xx: rec("obj_grad", g)
     A[EV + "cons"] = lambda it, s, xx: rec("cons", c)
     A[EV + "cons_jac"] = lambda it, s, xx: rec("cons_jac", J)
+    H = matmodel.user_matrix(u.it, n, n, "H_user", fmt=fmt)
+    J0 = Vec(J.coo[0], V(J.coo[3]).f, "real")
+    H0 = Vec(H.coo[0], V(H.coo[3]).f, "real")
+    A[EV + "lag_hess"] = lambda it, s, xx, yy: rec("lag_hess", H)
     z = u.vec("z", n + m, region="USER")
     zv, gv, cv = V(z), V(g), V(c)
     z0 = Vec(n + m, zv.f, "real")
@@ -57,6 +62,15 @@ def flow_frame(u):
     rho = u.real("rho")
     u.assume(rho >= 0)
     log = StoreLog(u)
+
+    def convert(it, mat, how, a, k):
+        # an entrywise sum (H + rho J^T J) has no triplet form in the model: its tocoo() is a FRESH triplet matrix of
+        # the same shape whose values this frame unit does not need (only who owns the arrays matters here)
+        if mat.coo is None and how == "tocoo":
+            return matmodel.user_matrix(it, mat.rows, mat.cols, it.path.fresh_name("sum_coo"), fmt="coo", region="FRESH")
+        return None
+
+    u.it.hooks["convert"] = convert
     y = Arr.new(Vec(m, lambda i: z0.f(i + n), "real"))
     lhs = Arr.new(Vec(m, lambda i: rho * c0.f(i) + z0.f(i + n), "real"))
     j, i = u.int("j"), u.int("i")
@@ -64,7 +78,7 @@ def flow_frame(u):
     u.path.index_term(j, n + m)
     u.path.index_term(i, m)
     u.path.index_term(n + i, n + m)
-    which = u.path.choose_n(4, "entry point")
+    which = u.path.choose_n(6, "entry point")
     if which == 0:
         r = u.method(flow, "aug_lag_deriv_x", z, rho)
         jt = V(matmodel.mtv(u.it, J, lhs))
@@ -81,6 +95,15 @@ def flow_frame(u):
     elif which == 2:
         r = u.method(flow, "aug_lag_deriv_y", z, rho)
         u.ensure(z3.Implies(z3.And(i >= 0, i < m), V(r).f(i) == c0.f(i)), "aug_lag_deriv_y==c")
+    elif which == 4:
+        # second-order data of the event logic: built from the Hessian / Jacobian objects of the callbacks
+        r = u.method(flow, "neg_aug_lag_deriv_xx", z, rho)
+        u.ensure(isinstance(r, Arr) and r.cell is not g.cell and r.cell is not c.cell and r.cell is not z.cell, "neg_aug_lag_deriv_xx:result_is_a_fresh_array")
+    elif which == 5:
+        filt = u.vec("filter", n, kind="bool")
+        rflow = u.obj(INT + "restricted_flow.RestrictedFlow", flow=flow, problem=problem, params=params, eval=ev, filter=filt)
+        r = u.method(rflow, "rhs_jac", z, rho)
+        u.ensure(isinstance(r, Mat) and r is not J and r is not H and r.region != "USER", "rhs_jac:result_is_a_fresh_matrix")
     else:
         filt = u.vec("filter", n, kind="bool")
         rflow = u.obj(INT + "restricted_flow.RestrictedFlow", flow=flow, problem=problem, params=params, eval=ev, filter=filt)
@@ -94,5 +117,7 @@ def flow_frame(u):
     u.ensure(z3.Implies(z3.And(j >= 0, j < n), V(g).f(j) == g0.f(j)), "caller's_gradient_array_keeps_its_values")
     u.ensure(z3.Implies(z3.And(i >= 0, i < m), V(c).f(i) == c0.f(i)), "caller's_constraint_array_keeps_its_values")
     u.ensure(z3.Implies(z3.And(j >= 0, j < n + m), V(z).f(j) == z0.f(j)), "state_vector_keeps_its_values")
+    u.ensure(QAll(J.coo[0], lambda q: V(J.coo[3]).f(q) == J0.f(q)), "caller's_Jacobian_data_keeps_its_values")
+    u.ensure(QAll(H.coo[0], lambda q: V(H.coo[3]).f(q) == H0.f(q)), "caller's_Hessian_data_keeps_its_values")
     log.check()
     u.cover("end")
